@@ -1,8 +1,85 @@
 import RbV.Basic.Codec
-/-! Driver for property C01 (line protocol → verdict). -/
-namespace RbV.Drv.C01
-open RbV.Codec
+import RbV.Basic.AlignCodec
+import RbV.Ref.Gotoh
+/-! Driver for property C01: pairwise alignment optimal, path achieves score, history independent.
 
-def verdict (_toks : List String) (_out : String) : String := "bad-op unimplemented"
+`c01 const => min:<MIN_SCORE>`
+`c01 cap:<m>:<n>|cap:new sc:<go>:<ge>:<xp>:<xs>:<yp>:<ys> w:<alphabet>:<table> <mode>,<x>,<y>;… =>
+     s:<score>,x:<xs>:<xe>:<xlen>,y:<ys>:<ye>:<ylen>,o:<ops>,h:same|differs;…`
+
+One line = one history of calls on one `Aligner`.  Every call is decided by `Align.accept` (theorem
+`C01_accept_iff`); `h:differs` (the harness compared the whole `Alignment` value with that of a fresh
+aligner) is rejected as history dependent. -/
+namespace RbV.Drv.C01
+open RbV.Codec RbV.Align RbV.AlignCodec
+
+def parseCall (s : String) : Option (String × List Nat × List Nat) :=
+  match s.splitOn "," with
+  | [m, x, y] => do
+    let x ← parseHex x
+    let y ← parseHex y
+    pure (m, x, y)
+  | _ => none
+
+def checkCall (sc : Sc) (cl : Clip) (idx : Nat) (call : String × List Nat × List Nat) (outS : String) :
+    Except String (List String) :=
+  let (mode, x, y) := call
+  match modeClip mode cl with
+  | none => .error "bad-op mode"
+  | some (cl', filt) =>
+    match parseOut outS with
+    | none => .error ("bad-op output-call" ++ toString idx)
+    | some (o, rest) =>
+      let pre := "call" ++ toString idx ++ "-" ++ mode ++ " "
+      if !acceptValid sc cl' filt x y o then .error ("reject " ++ pre ++ whyInvalid sc cl' filt x y o)
+      else
+        let best := opt sc cl' x y
+        if o.score ≠ best then .error ("diff " ++ pre ++ "optimum:" ++ toString best ++ "-reported:" ++ toString o.score)
+        else if !accept sc cl' filt x y o then .error ("reject " ++ pre ++ "accept-false")
+        else if rest.contains "h:differs" then .error ("reject " ++ pre ++ "history-dependent")
+        else if !rest.contains "h:same" then .error "bad-op no-history-field"
+        else
+          let core := coreOps o.ops
+          .ok ((if !x.isEmpty && !y.isEmpty && !core.isEmpty then ["nt"] else [])
+            ++ [mode]
+            ++ (if x.isEmpty || y.isEmpty then ["emptyseq"] else [])
+            ++ (if hasClip o.ops then ["clipops"] else [])
+            ++ (if o.xs > 0 || o.ys > 0 then ["preclip"] else [])
+            ++ (if o.xe < x.length || o.ye < y.length then ["sufclip"] else [])
+            ++ (if core.contains .ins && core.contains .del then ["insdel"] else [])
+            ++ (if core.isEmpty then ["allclipped"] else []))
+
+def dedup (l : List String) : List String := l.foldl (fun acc s => if acc.contains s then acc else acc ++ [s]) []
+
+def verdict (toks : List String) (out : String) : String :=
+  match toks with
+  | ["const"] => if out = "min:" ++ toString minScore then "ok const" else "diff min:" ++ toString minScore
+  | [capT, scT, wT, callsT] =>
+    if !(capT.startsWith "cap:") then "bad-op cap" else
+    match parseScTok scT, parseWTok wT, parseListNE parseCall callsT ';' with
+    | some (go, ge, cl), some (alpha, tab), some calls =>
+      if out.startsWith "PANIC" || out.startsWith "HANG" || out.startsWith "CRASH" then "reject " ++ out else
+      let outs := out.splitOn ";"
+      if outs.length ≠ calls.length then "bad-op arity" else
+      let sc : Sc := ⟨mkW alpha tab, go, ge⟩
+      let rec go' (i : Nat) (cs : List (String × List Nat × List Nat)) (os : List String) (tags : List String) :
+          Except String (List String) :=
+        match cs, os with
+        | c :: cs, o :: os =>
+          match checkCall sc cl i c o with
+          | .error e => .error e
+          | .ok t => go' (i + 1) cs os (tags ++ t)
+        | _, _ => .ok tags
+      match go' 0 calls outs [] with
+      | .error e => e
+      | .ok tags =>
+        let tags := dedup (tags
+          ++ (if calls.length > 1 then ["reuse"] else [])
+          ++ (if ge = 0 then ["ge0"] else []) ++ (if go = 0 then ["go0"] else [])
+          ++ (if cl.xp ≠ cl.xs || cl.yp ≠ cl.ys then ["asymclip"] else [])
+          ++ (if capT = "cap:0:0" then ["cap0"] else []))
+        " ".intercalate ("ok" :: tags)
+    | _, _, _ => "bad-op parse"
+  | _ => "bad-op arity"
 
 end RbV.Drv.C01
